@@ -40,7 +40,7 @@ func sCfg(e structs.ConfigEntry, d string) entry {
 		panic(err)
 	}
 	req := structs.ConfigEntryRequest{Datacenter: "dc1", Op: structs.ConfigEntryUpsert, Entry: e}
-	return entry{data: enc(structs.ConfigEntryRequestType, &req), kind: "config-entry", desc: d}
+	return entry{data: enc(structs.ConfigEntryRequestType, &req), kind: "config-entry", desc: d, svcNames: cfgSvcNames(e)}
 }
 func sKV(op api.KVOp, key, val string) entry {
 	req := structs.KVSRequest{Datacenter: "dc1", Op: op, DirEnt: structs.DirEntry{Key: key, Value: []byte(val)}}
@@ -139,6 +139,14 @@ func scenarios(u *universe) []scenario {
 			at(23, sReg(structs.RegisterRequest{Node: "n1", Address: "127.0.0.1", PeerName: "peer1",
 				Service: func() *structs.NodeService { p := proxy("web", "db"); p.PeerName = "peer1"; return p }()}, "register n1 peer=peer1 web-sidecar-proxy upstream db")),
 			at(24, sReg(structs.RegisterRequest{Node: "n1", Address: "127.0.0.1", Service: proxy("web")}, "register n1 web-sidecar-proxy without upstreams"))}},
+		{"terminating-wildcard-service-becomes-native", []entry{
+			at(4, sCfg(termWild(), "terminating-gateway term-gw [*]")),
+			at(12, sReg(structs.RegisterRequest{Node: "n2", Address: "127.0.0.2", Service: svc("db")}, "register n2 db")),
+			at(20, sReg(structs.RegisterRequest{Node: "n2", Address: "127.0.0.2", Service: &structs.NodeService{ID: "db", Service: "db", Port: 8000, Connect: structs.ServiceConnect{Native: true}}}, "register n2 db connect-native"))}},
+		{"terminating-explicit-service-case", []entry{
+			at(7, sReg(structs.RegisterRequest{Node: "n3", ID: types.NodeID(u.nodeIDs[2]), Address: "127.0.0.3", Service: svc("Web")}, "register n3 id=X Web")),
+			at(10, sCfg(&structs.TerminatingGatewayConfigEntry{Kind: structs.TerminatingGateway, Name: "term-gw", Services: []structs.LinkedService{{Name: "web", SNI: "x.example"}}}, "terminating-gateway term-gw [web sni]")),
+			at(29, sReg(structs.RegisterRequest{Node: "n1", ID: types.NodeID(u.nodeIDs[2]), Address: "127.0.0.3"}, "register n1 id=X (renames n3; its services go)"))}},
 		{"node-name-case", []entry{
 			at(2, sReg(structs.RegisterRequest{Node: "n1", Address: "127.0.0.1", Service: svc("web")}, "register n1 web")),
 			at(4, sReg(structs.RegisterRequest{Node: "N1", Address: "127.0.0.1"}, "register N1"))}},
